@@ -77,15 +77,22 @@ func simplify(start, s *State, visited map[*State]bool) {
 	for _, tr := range s.Transitions {
 		simplify(start, tr.Next, visited)
 	}
-	for s.simplifySelf(start) {
+	// the shortcut targets already merged into s: a shortcut leading to one of them again
+	// (e.g. through a cycle of shortcuts between two not yet simplified states) is just dropped
+	expanded := map[*State]bool{}
+	for s.simplifySelf(start, expanded) {
 	}
 }
 
-func (s *State) simplifySelf(start *State) bool {
+func (s *State) simplifySelf(start *State, expanded map[*State]bool) bool {
 	for idx, tr := range s.Transitions {
 		if matcher.IsShortcut(tr.Matcher) {
 			next := tr.Next
 			s.Transitions = removeTransitionAt(idx, s.Transitions)
+			if expanded[next] {
+				return true
+			}
+			expanded[next] = true
 			for _, tr := range next.Transitions {
 				if !s.has(tr) {
 					s.Transitions = append(s.Transitions, tr)
